@@ -198,8 +198,8 @@ def build_cases(tier, seed):
     rnd = random.Random(seed)
     thorough = tier == "thorough"
     cases = []
-    n_unary = 7 if thorough else 5
-    n_norm = 8 if thorough else 6
+    n_unary = 6 if thorough else 5
+    n_norm = 7 if thorough else 6
     strs = list(component_strings(n_unary))
     for s in strs:
         for fn in UNARY + UNARY_INFO:
@@ -211,7 +211,7 @@ def build_cases(tier, seed):
             cases.append(("normpath", [s]))
             cases.append(("iteratepath", [s]))
             extra += 1
-    rs = list(random_strings(rnd, 200000 if thorough else 8000))
+    rs = list(random_strings(rnd, 100000 if thorough else 8000))
     for s in rs:
         for fn in UNARY + UNARY_INFO:
             cases.append((fn, [s]))
